@@ -24,7 +24,7 @@
         MatchModel.add_subscription registers. *)
 From Gnmi Require Import Base.Prelude CTree.CTreeModel Path.PathModel Path.PathProofs
   Match.MatchModel Match.MatchProofs.
-From Gnmi Require Subscribe.SubModel Pipeline.PipelineModel Stream.StreamLts.
+From Gnmi Require Subscribe.SubModel Pipeline.PipelineModel Stream.StreamLts Stream.StreamProofs.
 From Gnmi Require Import Glue.GluePath.
 Open Scope string_scope.
 Open Scope list_scope.
@@ -159,6 +159,121 @@ Corollary stream_mult_hist h c (s : StreamLts.sub) prefix p :
   StreamLts.mult s (prefix ++ p) =
   count_occ Nat.eq_dec (update_notification (run_hist h) prefix [p]) c.
 Proof. intros H. apply stream_mult_is_trie_offer. now apply registered_exactly_hist. Qed.
+
+(** ** StreamLts's LCancel / LUnreg against the removal closures of MatchModel
+
+    [LCancel s] only sets the subscriber's ended flag: no registration and no
+    other subscriber changes, and an ended subscriber takes no further
+    deliveries ([StreamLts.deliver] skips it -- in the code the queue is
+    closed and Insert is refused: C11_insert_after_close_refused).
+    [LUnreg s] is one step of the deferred remove(): the LAST still-registered
+    path of [s] leaves [regq]; nothing else changes.  On the trie that is
+    [remove_root q c]: the client's registrations become the shorter list
+    (when [q] is not also one of the remaining paths -- MatchModel's client
+    sets are sets, so a path subscribed twice is gone after its first removal;
+    StreamLts keeps the duplicate in [regq], which is unobservable because an
+    ended subscriber is never delivered to), and every OTHER client's
+    registrations, hence offers, are untouched. *)
+
+Lemma firstn_S_snoc {A} k (l : list A) :
+  exists t, firstn (S k) l = firstn k l ++ t /\ (List.length t <= 1)%nat.
+Proof.
+  revert l; induction k as [|k IH]; intros [|x l].
+  - exists []. cbn. auto.
+  - exists [x]. cbn. auto.
+  - exists []. cbn. auto.
+  - destruct (IH l) as (t & Ht & Hl). exists t. split; [|assumption].
+    change (firstn (S (S k)) (x :: l)) with (x :: firstn (S k) l). rewrite Ht. reflexivity.
+Qed.
+
+Theorem stream_cancel_step h st s st' :
+  StreamLts.step h st (StreamLts.LCancel s) = Some st' ->
+  StreamLts.st_tree st' = StreamLts.st_tree st /\ StreamLts.st_feeds st' = StreamLts.st_feeds st /\
+  (forall s', s' <> s -> nth_error (StreamLts.st_subs st') s' = nth_error (StreamLts.st_subs st) s') /\
+  exists sb sb', nth_error (StreamLts.st_subs st) s = Some sb /\
+                 nth_error (StreamLts.st_subs st') s = Some sb' /\
+                 StreamLts.regq sb' = StreamLts.regq sb /\ StreamLts.s_end sb' = true /\
+                 (forall it, StreamLts.deliver st' it sb' = sb').
+Proof.
+  unfold StreamLts.step, StreamLts.step_gen, StreamLts.with_sub.
+  destruct (nth_error (StreamLts.st_subs st) s) as [sb|] eqn:Hs; [|discriminate].
+  destruct (StreamLts.is_registered sb && negb (StreamLts.s_end sb)); [|discriminate].
+  intros [= <-]. cbn [StreamLts.set_subs StreamLts.st_tree StreamLts.st_feeds StreamLts.st_subs].
+  split; [reflexivity|]. split; [reflexivity|]. split.
+  - intros s' Hne. apply StreamProofs.nth_error_upd_nth_neq. congruence.
+  - eexists _, _. split; [reflexivity|]. split.
+    + rewrite StreamProofs.nth_error_upd_nth_eq, Hs. reflexivity.
+    + split; [reflexivity|]. split; [reflexivity|].
+      intros it. unfold StreamLts.deliver. destruct (StreamLts.item_pat _ it); reflexivity.
+Qed.
+
+Theorem stream_unreg_step h st s st' :
+  StreamLts.step h st (StreamLts.LUnreg s) = Some st' ->
+  StreamLts.st_tree st' = StreamLts.st_tree st /\ StreamLts.st_feeds st' = StreamLts.st_feeds st /\
+  (forall s', s' <> s -> nth_error (StreamLts.st_subs st') s' = nth_error (StreamLts.st_subs st) s') /\
+  exists sb sb' gone, nth_error (StreamLts.st_subs st) s = Some sb /\
+                      nth_error (StreamLts.st_subs st') s = Some sb' /\
+                      StreamLts.s_end sb = true /\
+                      StreamLts.regq sb = StreamLts.regq sb' ++ gone /\ (List.length gone <= 1)%nat.
+Proof.
+  unfold StreamLts.step, StreamLts.step_gen, StreamLts.with_sub.
+  destruct (nth_error (StreamLts.st_subs st) s) as [sb|] eqn:Hs; [|discriminate].
+  destruct (StreamLts.s_end sb) eqn:He; [|discriminate].
+  assert (Hgen : forall sb', (match StreamLts.s_pc sb with
+                | StreamLts.SDone => match List.length (StreamLts.s_qs sb) with
+                                     | O => None
+                                     | S k => Some (StreamLts.set_pc sb (StreamLts.SReg k))
+                                     end
+                | StreamLts.SReg (S k) => Some (StreamLts.set_pc sb (StreamLts.SReg k))
+                | _ => None
+                end) = Some sb' ->
+            exists gone, StreamLts.regq sb = StreamLts.regq sb' ++ gone /\ (List.length gone <= 1)%nat).
+  { intros sb'. unfold StreamLts.regq. destruct (StreamLts.s_pc sb) as [[|k]|k|k todo|] eqn:Hpc; try discriminate.
+    - intros [= <-]. cbn [StreamLts.set_pc StreamLts.s_pc StreamLts.s_qs]. apply firstn_S_snoc.
+    - destruct (List.length (StreamLts.s_qs sb)) as [|k] eqn:Hl; [discriminate|].
+      intros [= <-]. cbn [StreamLts.set_pc StreamLts.s_pc StreamLts.s_qs].
+      destruct (firstn_S_snoc k (StreamLts.s_qs sb)) as (t & Ht & Hlt).
+      exists t. split; [|assumption]. rewrite <- Ht, <- Hl. symmetry. apply firstn_all. }
+  destruct (match StreamLts.s_pc sb with
+            | StreamLts.SDone => _ | StreamLts.SReg (S k) => _ | _ => None end) as [sb'|] eqn:Hf; [|discriminate].
+  intros [= <-]. cbn [StreamLts.set_subs StreamLts.st_tree StreamLts.st_feeds StreamLts.st_subs].
+  split; [reflexivity|]. split; [reflexivity|]. split.
+  - intros s' Hne. apply StreamProofs.nth_error_upd_nth_neq. congruence.
+  - destruct (Hgen sb' eq_refl) as (gone & Hg & Hl).
+    exists sb, sb', gone. split; [reflexivity|]. split.
+    + rewrite StreamProofs.nth_error_upd_nth_eq, Hs. reflexivity.
+    + auto.
+Qed.
+
+(** the same step on the trie: the removal closure of [(q, c)] *)
+Lemma registered_exactly_remove b c qs q :
+  registered_exactly b c (qs ++ [q]) -> ~ In q qs -> registered_exactly (remove_root q c b) c qs.
+Proof.
+  intros [Hwf Hreg] Hni. split; [now apply wf_remove_root|].
+  intros q'. rewrite (clients_at_remove_root q c b q' c Hwf), Hreg, in_app_iff. cbn. split.
+  - intros [[H|[<-|[]]] Hn]; [assumption|]. exfalso. apply Hn. auto.
+  - intros H. split; [auto|]. intros [-> _]. contradiction.
+Qed.
+
+(** other clients keep exactly their registrations ... *)
+Lemma registered_exactly_remove_other b c c' q qs' :
+  c' <> c -> registered_exactly b c' qs' -> registered_exactly (remove_root q c b) c' qs'.
+Proof.
+  intros Hne [Hwf Hreg]. split; [now apply wf_remove_root|].
+  intros q'. rewrite (clients_at_remove_root q c b q' c' Hwf), Hreg. split; [tauto|].
+  intros H. split; [assumption|]. intros [_ E]. contradiction.
+Qed.
+
+(** ... hence exactly their offers: the count StreamLts computes for another
+    subscriber (unchanged by LUnreg) is still the count of the real trie after
+    the removal *)
+Theorem stream_unreg_others_offers b c c' q (s' : StreamLts.sub) prefix p :
+  c' <> c -> registered_exactly b c' (StreamLts.regq s') ->
+  StreamLts.mult s' (prefix ++ p) =
+  count_occ Nat.eq_dec (update_notification (remove_root q c b) prefix [p]) c'.
+Proof.
+  intros Hne H. apply stream_mult_is_trie_offer. now apply registered_exactly_remove_other.
+Qed.
 
 (** ** SubModel.offers and SubModel.sub_queries *)
 
